@@ -753,6 +753,200 @@ theorem C02_hist_relu_mono (t : Tie) (s0 : ReluSt) (h : List (HStep ReluEv Ask))
   refine ⟨qreluU t s.cfg x, qreluU t s.cfg x', ?_, ?_, C02_reluU_mono t _ hx⟩ <;>
   simp only [reluSpec, ReluSt.answer, hus, Bool.false_eq_true, if_false]
 
+/-! ## Strengthening round 3 (seed C02-7): `use_stochastic_rounding` × the learning phase
+
+  Every class hands its flag to `_round_through`, which asks `K.learning_phase()` when the quantizer
+  is CALLED (`Model/FixedQ.lean`: `roundThroughI`, `RoundMode`, `q…S`).  The property is about the
+  deterministic map; these theorems say when the flagged quantizer IS that map: whenever the learning
+  phase is off (or the flag is off) at the call, for every draw — so every clause above (nearest,
+  saturate, monotone, idempotent) holds for `use_stochastic_rounding=True` at inference, and two calls
+  agree.  This is the C02 side of `C08_round_through_inference` / `C08_*_inference` (Props/C08.lean,
+  stated there on `QKV.Model.Stoch`). -/
+
+/-- deterministic round mode (flag off, or learning phase off): the call IS the projection -/
+theorem C02_bits_inference (t : Tie) (r : RoundMode) (h : r.Det) (c : BitsCfg) (x : ℚ) :
+    qbitsS t r c x = qbits t c x := by
+  unfold qbitsS; rw [RoundMode.rho_det t h]; rfl
+
+theorem C02_linear_inference (t : Tie) (r : RoundMode) (h : r.Det) (c : LinCfg) (x : ℚ) :
+    qlinearS t r c x = qlinear t c x := by
+  unfold qlinearS; rw [RoundMode.rho_det t h]; rfl
+
+/-- all options of `quantized_relu` (leaky slope: both `_round_through` calls, both draws) -/
+theorem C02_reluU_inference (t : Tie) (r : RoundMode) (h : r.Det) (c : ReluCfg) (x : ℚ) :
+    qreluUS t r c x = qreluU t c x := by
+  unfold qreluUS; rw [RoundMode.rho_det t h, RoundMode.rho2_det t h]; rfl
+
+theorem C02_reluSig_inference (t : Tie) (r : RoundMode) (h : r.Det) (c : ReluCfg) (s : ℚ) :
+    qreluSigUS t r c s = qreluSigU t c s := by
+  unfold qreluSigUS; rw [RoundMode.rho_det t h, RoundMode.rho2_det t h]; rfl
+
+theorem C02_tanh_inference (t : Tie) (r : RoundMode) (h : r.Det) (bits : ℤ) (sym : Bool) (p : ℚ) :
+    qtanhPS t r bits sym p = qtanhP t bits sym p := by
+  unfold qtanhPS; rw [RoundMode.rho_det t h]; rfl
+
+theorem C02_sigmoid_inference (t : Tie) (r : RoundMode) (h : r.Det) (bits : ℤ) (sym : Bool) (p : ℚ) :
+    qsigmoidPS t r bits sym p = qsigmoidP t bits sym p := by
+  unfold qsigmoidPS; rw [RoundMode.rho_det t h]; rfl
+
+/-- "two calls give the same result": any two deterministic round modes (different draws, flags) agree -/
+theorem C02_inference_deterministic (t : Tie) (r r' : RoundMode) (h : r.Det) (h' : r'.Det) :
+    (∀ (c : BitsCfg) (x : ℚ), qbitsS t r c x = qbitsS t r' c x) ∧
+    (∀ (c : LinCfg) (x : ℚ), qlinearS t r c x = qlinearS t r' c x) ∧
+    (∀ (c : ReluCfg) (x : ℚ), qreluUS t r c x = qreluUS t r' c x) ∧
+    (∀ (c : ReluCfg) (s : ℚ), qreluSigUS t r c s = qreluSigUS t r' c s) ∧
+    (∀ (bits : ℤ) (sym : Bool) (p : ℚ), qtanhPS t r bits sym p = qtanhPS t r' bits sym p) ∧
+    (∀ (bits : ℤ) (sym : Bool) (p : ℚ), qsigmoidPS t r bits sym p = qsigmoidPS t r' bits sym p) := by
+  refine ⟨fun c x => ?_, fun c x => ?_, fun c x => ?_, fun c s => ?_, fun b sy p => ?_, fun b sy p => ?_⟩
+  · rw [C02_bits_inference t r h, C02_bits_inference t r' h']
+  · rw [C02_linear_inference t r h, C02_linear_inference t r' h']
+  · rw [C02_reluU_inference t r h, C02_reluU_inference t r' h']
+  · rw [C02_reluSig_inference t r h, C02_reluSig_inference t r' h']
+  · rw [C02_tanh_inference t r h, C02_tanh_inference t r' h']
+  · rw [C02_sigmoid_inference t r h, C02_sigmoid_inference t r' h']
+
+/-- the flag set, the training phase off: `quantized_bits` is the nearest-code projection … -/
+theorem C02_bits_stoch_inference_nearest (t : Tie) (r : RoundMode) (hp : r.phase = false) (c : BitsCfg)
+    (h : 0 < c.ub) (hg : c.gain = 1) (x : ℚ)
+    (h1 : (c.lo : ℚ) * c.step ≤ x) (h2 : x ≤ (c.hi : ℚ) * c.step) :
+    |qbitsS t r c x - x| ≤ c.step / 2 := by
+  rw [C02_bits_inference t r (Or.inr hp)]; exact C02_bits_nearest t c h hg x h1 h2
+
+/-- … saturating at the end codes … -/
+theorem C02_bits_stoch_inference_saturate (t : Tie) (r : RoundMode) (hp : r.phase = false) (c : BitsCfg)
+    (h : 0 < c.ub) (x : ℚ) :
+    ((c.hi : ℚ) * c.step ≤ x → qbitsS t r c x = c.gain * (c.hi : ℚ) * c.step) ∧
+    (x ≤ (c.lo : ℚ) * c.step → qbitsS t r c x = c.gain * (c.lo : ℚ) * c.step) := by
+  rw [C02_bits_inference t r (Or.inr hp)]
+  exact ⟨C02_bits_saturate_hi t c h x, C02_bits_saturate_lo t c h x⟩
+
+/-- … monotone, also ACROSS calls (each call has its own draw) … -/
+theorem C02_bits_stoch_inference_mono (t : Tie) (r r' : RoundMode) (hp : r.phase = false) (hp' : r'.phase = false)
+    (c : BitsCfg) (hg : 0 ≤ c.gain) {x y : ℚ} (hxy : x ≤ y) : qbitsS t r c x ≤ qbitsS t r' c y := by
+  rw [C02_bits_inference t r (Or.inr hp), C02_bits_inference t r' (Or.inr hp')]; exact C02_bits_mono t c hg hxy
+
+/-- … and idempotent (second call, another draw) -/
+theorem C02_bits_stoch_inference_idem (t : Tie) (r r' : RoundMode) (hp : r.phase = false) (hp' : r'.phase = false)
+    (c : BitsCfg) (h : 0 < c.ub) (hg : c.gain = 1) (x : ℚ) : qbitsS t r' c (qbitsS t r c x) = qbitsS t r c x := by
+  rw [C02_bits_inference t r (Or.inr hp), C02_bits_inference t r' (Or.inr hp')]; exact C02_bits_idem t c h hg x
+
+/-- `quantized_linear` with the flag at inference: nearest, saturating, monotone, idempotent -/
+theorem C02_linear_stoch_inference (t : Tie) (r r' : RoundMode) (hp : r.phase = false) (hp' : r'.phase = false)
+    (c : LinCfg) (h : c.signFn = false) (hq : 0 < c.qs) (x : ℚ) :
+    ((c.lo : ℚ) * c.qs ≤ x → x ≤ (c.hi : ℚ) * c.qs → |qlinearS t r c x - x| ≤ c.qs / 2) ∧
+    ((c.hi : ℚ) * c.qs ≤ x → qlinearS t r c x = (c.hi : ℚ) * c.qs) ∧
+    (x ≤ (c.lo : ℚ) * c.qs → qlinearS t r c x = (c.lo : ℚ) * c.qs) ∧
+    (∀ y, x ≤ y → qlinearS t r c x ≤ qlinearS t r' c y) ∧
+    qlinearS t r' c (qlinearS t r c x) = qlinearS t r c x := by
+  simp only [C02_linear_inference t r (Or.inr hp), C02_linear_inference t r' (Or.inr hp')]
+  exact ⟨C02_linear_nearest t c h hq x, C02_linear_saturate_hi t c h hq x, C02_linear_saturate_lo t c h hq x,
+    fun y hxy => C02_linear_mono t c h hq hxy, C02_linear_idem t c h hq x⟩
+
+/-- `quantized_relu` (every option) with the flag at inference: monotone across calls; plain ReLU: nearest
+    code of the float activation, end code above the range, idempotent for on-grid bounds -/
+theorem C02_reluU_stoch_inference (t : Tie) (r r' : RoundMode) (hp : r.phase = false) (hp' : r'.phase = false)
+    (c : ReluCfg) (x : ℚ) :
+    (∀ y, x ≤ y → qreluUS t r c x ≤ qreluUS t r' c y) ∧
+    (c.slopeLog = none → 0 ≤ x → c.act x ≤ (c.hi : ℚ) * c.step → |qreluUS t r c x - c.act x| ≤ c.step / 2) ∧
+    (c.slopeLog = none → (c.hi : ℚ) * c.step ≤ x → qreluUS t r c x = clampTo c.clamp ((c.hi : ℚ) * c.step)) ∧
+    (c.slopeLog = none → (∀ u, c.clamp = some u → ∃ j : ℤ, 0 ≤ j ∧ u = (j : ℚ) * c.step) →
+      qreluUS t r' c (qreluUS t r c x) = qreluUS t r c x) := by
+  simp only [C02_reluU_inference t r (Or.inr hp), C02_reluU_inference t r' (Or.inr hp')]
+  exact ⟨fun y hxy => C02_reluU_mono t c hxy, fun h h0 ha => C02_reluU_nearest t c h x h0 ha,
+    fun h h2 => C02_reluU_saturate_hi t c h x h2, fun h hc => C02_reluU_idem t c h hc x⟩
+
+/-- `quantized_tanh` / `quantized_sigmoid` with the flag at inference: nearest code of the surrogate value,
+    monotone across calls -/
+theorem C02_tanh_stoch_inference (t : Tie) (r r' : RoundMode) (hp : r.phase = false) (hp' : r'.phase = false)
+    (bits : ℤ) (sym : Bool) (p : ℚ) :
+    (-1 + (if sym then 1 else 0) / (tp (bits - 1) : ℚ) ≤ p → p ≤ 1 - 1 / (tp (bits - 1) : ℚ) →
+      |qtanhPS t r bits sym p - p| ≤ 1 / (2 * (tp (bits - 1) : ℚ))) ∧
+    (∀ p', p ≤ p' → qtanhPS t r bits sym p ≤ qtanhPS t r' bits sym p') := by
+  simp only [C02_tanh_inference t r (Or.inr hp), C02_tanh_inference t r' (Or.inr hp')]
+  exact ⟨C02_tanh_nearest t bits sym p, fun p' h => C02_tanh_mono t bits sym h⟩
+
+theorem C02_sigmoid_stoch_inference (t : Tie) (r r' : RoundMode) (hp : r.phase = false) (hp' : r'.phase = false)
+    (bits : ℤ) (sym : Bool) (p : ℚ) :
+    ((if sym then 1 else 0) / (tp bits : ℚ) ≤ p → p ≤ 1 - 1 / (tp bits : ℚ) →
+      |qsigmoidPS t r bits sym p - p| ≤ 1 / (2 * (tp bits : ℚ))) ∧
+    (∀ p', p ≤ p' → qsigmoidPS t r bits sym p ≤ qsigmoidPS t r' bits sym p') := by
+  simp only [C02_sigmoid_inference t r (Or.inr hp), C02_sigmoid_inference t r' (Or.inr hp')]
+  exact ⟨C02_sigmoid_nearest t bits sym p, fun p' h => C02_sigmoid_mono t bits sym h⟩
+
+/-! ### the learning phase is process-level state: sessions -/
+
+/-- constructing quantizer objects at any point of a session changes no output: the learning phase is
+    not captured at construction time -/
+theorem C02_phase_session_construct_irrelevant (stoch : Bool) (q : RoundMode → ℚ → ℚ) (ph : Bool)
+    (es : List PhaseEv) :
+    runPhaseSession stoch q ph (es.filter fun e => match e with | .construct => false | _ => true)
+      = runPhaseSession stoch q ph es := by
+  induction es generalizing ph with
+  | nil => rfl
+  | cons e es ih =>
+    cases e with
+    | setPhase b => simp [List.filter, runPhaseSession, ih]
+    | construct => simp [List.filter, runPhaseSession, ih]
+    | call x u u2 => simp [List.filter, runPhaseSession, ih]
+
+/-- a call that follows `K.set_learning_phase(b)` runs under `b`, whatever happened before (training
+    calls, the phase at construction, earlier switches) -/
+theorem C02_phase_session_call_after_set (stoch : Bool) (q : RoundMode → ℚ → ℚ) (ph b : Bool)
+    (es : List PhaseEv) (x u u2 : ℚ) :
+    runPhaseSession stoch q ph (es ++ [.setPhase b, .call x u u2])
+      = runPhaseSession stoch q ph es ++ [q { stoch := stoch, phase := b, u := u, u2 := u2 } x] := by
+  induction es generalizing ph with
+  | nil => simp [runPhaseSession]
+  | cons e es ih =>
+    cases e with
+    | setPhase b' => simp [runPhaseSession, ih]
+    | construct => simp [runPhaseSession, ih]
+    | call y v v2 => simp [runPhaseSession, ih]
+
+/-- … so after ANY session, switching the phase off makes the next call of a flagged `quantized_bits`
+    the deterministic projection (every draw) -/
+theorem C02_phase_session_inference_bits (t : Tie) (stoch : Bool) (c : BitsCfg) (ph : Bool) (es : List PhaseEv)
+    (x u u2 : ℚ) :
+    runPhaseSession stoch (fun r => qbitsS t r c) ph (es ++ [.setPhase false, .call x u u2])
+      = runPhaseSession stoch (fun r => qbitsS t r c) ph es ++ [qbits t c x] := by
+  rw [C02_phase_session_call_after_set]
+  congr 2
+  exact C02_bits_inference t _ (Or.inr rfl) c x
+
+/-! ### the training phase: outside this property, and observably different -/
+
+/-- under EVERY round mode (training draws included) the in-range output is a code less than ONE step
+    from the input (`C08`'s "adjacent"); half a step needs a deterministic mode -/
+theorem C02_bits_any_mode_within_step_partial (t : Tie) (r : RoundMode) (c : BitsCfg) (h : 0 < c.ub)
+    (hg : c.gain = 1) (x : ℚ) (h1 : (c.lo : ℚ) * c.step ≤ x) (h2 : x ≤ (c.hi : ℚ) * c.step) :
+    |qbitsS t r c x - x| < c.step := by
+  have hs := c.step_pos
+  have hadj := RoundMode.rho_adjacent t r
+  have hlo : (c.lo : ℚ) ≤ x / c.step := by rw [le_div_iff₀ hs]; exact h1
+  have hhi : x / c.step ≤ (c.hi : ℚ) := by rw [div_le_iff₀ hs]; exact h2
+  obtain ⟨m1, m2⟩ := hadj.mem hlo hhi
+  unfold qbitsS qbitsR
+  rw [if_pos h, hg, iclip_id m1 m2]
+  have e := hadj.err (x / c.step)
+  have hx : x / c.step * c.step = x := by field_simp
+  have : 1 * ((r.rho t (x / c.step) : ℤ) : ℚ) * c.step - x
+      = (((r.rho t (x / c.step) : ℤ) : ℚ) - x / c.step) * c.step := by
+    rw [sub_mul, hx, one_mul]
+  rw [this, abs_mul, abs_of_pos hs]
+  calc |((r.rho t (x / c.step) : ℤ) : ℚ) - x / c.step| * c.step < 1 * c.step :=
+        mul_lt_mul_of_pos_right e hs
+    _ = c.step := one_mul _
+
+/-- COUNTEREXAMPLE to the half-step clause in the TRAINING phase (what an inverted phase switch — seed
+    C02-7 — shows at inference): `quantized_bits(4,0,1,use_stochastic_rounding=True)(-0.53125)` with a
+    draw above the fraction 3/4 gives −0.625, 3/32 = 3/4 of a step away; the projection gives −0.5 -/
+theorem C02_bits_training_half_step_counterexample :
+    let c : BitsCfg := { bits := 4, integer := 0, symmetric := true, keepNeg := true, alpha := none }
+    qbitsS .even { stoch := true, phase := true, u := 9/10 } c (-17/32) = -5/8 ∧
+    qbitsS .even { stoch := true, phase := false, u := 9/10 } c (-17/32) = -1/2 ∧
+    qbits .even c (-17/32) = -1/2 ∧ c.step = 1/8 := by
+  refine ⟨by decide +kernel, by decide +kernel, by decide +kernel, by decide +kernel⟩
+
 /-! ## non-vacuity -/
 
 example : let c : BitsCfg := { bits := 4, integer := 0, symmetric := false, keepNeg := true, alpha := none }
